@@ -1,5 +1,19 @@
 package main
 
+import (
+	"fmt"
+	"io"
+	"io/fs"
+	"os"
+	"os/exec"
+	"path/filepath"
+	"strings"
+)
+
+// The sensitivity corpus: scratch variants of /repo in which one rule instance is broken. Each variant must still
+// type-check and must be reported by the named rule. This is checker self-validation (run by the thorough tier and
+// by -selftest); the verdict of a check is always the analysis of the unmodified working tree.
+
 type selftestResult struct {
 	Name   string `json:"name"`
 	Rule   string `json:"rule"`
@@ -7,6 +21,232 @@ type selftestResult struct {
 	Detail string `json:"detail"`
 }
 
-func runSelftest(p *Property, repo, verif string) int { return 0 }
+type edit struct {
+	File   string
+	After  string // optional marker: the replacement applies to the first occurrence of Old after this text
+	Old    string
+	New    string
+}
 
-func selftestSummary(p *Property, repo, verif string) []selftestResult { return nil }
+type variant struct {
+	Name  string
+	Prop  string
+	Rule  string // a reported obligation key must start with this
+	Edits []edit
+}
+
+var corpus = []variant{
+	// C01
+	{"C01-direct-index-write", "C01", "C01.single-writer", []edit{{"pkg/operations/delete.go", "", "	// Append deletion hdrs to the tape or tar file\n", "	if _, err := o.metadata.Metadata.DeleteHeader(context.Background(), name, lastIndexedRecord, lastIndexedBlock); err != nil {\n		return err\n	}\n\n	// Append deletion hdrs to the tape or tar file\n"}}},
+	{"C01-store-after-snapshot", "C01", "C01.snapshot-window", []edit{{"pkg/operations/archive.go", "", "		hdrs = append(hdrs, &hdrToAppend)\n", "		hdrs = append(hdrs, &hdrToAppend)\n		hdr.Uname = \"\"\n"}}},
+	{"C01-success-exit-without-index", "C01", "C01.append-then-index", []edit{{"pkg/operations/delete.go", "	reader, err := o.backend.GetReader()\n", "		return err\n", "		return nil\n"}}},
+	{"C01-crossed-converter-field", "C01", "C01.converters", []edit{{"internal/converters/header.go", "", "		Gid:        int(dbhdr.Gid),\n", "		Gid:        int(dbhdr.UID),\n"}}},
+	// C02
+	{"C02-crossed-converter-field", "C02", "C02.converters", []edit{{"internal/converters/header.go", "", "		Uname:           tarhdr.Uname,\n", "		Uname:           tarhdr.Gname,\n"}}},
+	{"C02-parent-check-on-wrong-name", "C02", "C02.precondition-before-append", []edit{{"pkg/fs/filesystem.go", "func (f *STFS) Mkdir(", "		filepath.Dir(name),\n", "		name,\n"}}},
+	// C03
+	{"C03-suffix-mismatch", "C03", "C03.format-tables", []edit{{"internal/suffix/remove.go", "", "		name = strings.TrimSuffix(name, CompressionFormatLZ4Suffix)\n", "		name = strings.TrimSuffix(name, CompressionFormatZStandardSuffix)\n"}}},
+	{"C03-write-pass-other-level", "C03", "C03.two-pass-agreement", []edit{{"pkg/operations/archive.go", "		// Compress and write the file\n", "			compressionLevel,\n", "			config.CompressionLevelFastestKey,\n"}}},
+	{"C03-missing-flush", "C03", "C03.finish-order", []edit{{"pkg/operations/archive.go", "		// Compress and write the file\n", "		if err := compressor.Flush(); err != nil {\n			return []*tar.Header{}, err\n		}\n\n", ""}}},
+	{"C03-decompress-before-decrypt", "C03", "C03.nesting-inverse", []edit{{"pkg/recovery/fetch.go", "", "compression.Decompress(decryptor, pipes.Compression)", "compression.Decompress(tr, pipes.Compression)"}}},
+	{"C03-logical-size-not-restored", "C03", "C03.logical-size", []edit{{"pkg/recovery/index.go", "", "		hdr.Size = int64(size)\n", "		_ = size\n"}}},
+	{"C03-level-arm-dropped", "C03", "C03.format-tables", []edit{{"pkg/compression/compress.go", "	case config.CompressionFormatZStandardKey:\n", "		case config.CompressionLevelBalancedKey:\n			l = zstd.SpeedDefault\n", ""}}},
+	// C04
+	{"C04-lastknown-as-content", "C04", "C04.units", []edit{{"pkg/recovery/index.go", "", "converters.TarHeaderToDBHeader(oldHdr.Record, record, oldHdr.Block, block, hdr)", "converters.TarHeaderToDBHeader(oldHdr.Lastknownrecord, record, oldHdr.Lastknownblock, block, hdr)"}}},
+	{"C04-record-block-swapped-store", "C04", "C04.units", []edit{{"pkg/persisters/metadata.go", "func (p *MetadataPersister) DeleteHeader(", "	hdr.Lastknownrecord = lastknownrecord\n	hdr.Lastknownblock = lastknownblock\n", "	hdr.Lastknownrecord = lastknownblock\n	hdr.Lastknownblock = lastknownrecord\n"}}},
+	{"C04-seek-formula-swapped", "C04", "C04.seek-formula", []edit{{"pkg/recovery/fetch.go", "", "(pipes.RecordSize*config.MagneticTapeBlockSize*record)+block*config.MagneticTapeBlockSize", "(pipes.RecordSize*config.MagneticTapeBlockSize*block)+record*config.MagneticTapeBlockSize"}}},
+	{"C04-restore-uses-lastknown", "C04", "C04.units", []edit{{"pkg/operations/restore.go", "", "			int(dbhdr.Record),\n			int(dbhdr.Block),\n", "			int(dbhdr.Lastknownrecord),\n			int(dbhdr.Lastknownblock),\n"}}},
+	// C05
+	{"C05-open-without-append", "C05", "C05.overwrite-provenance", []edit{{"pkg/tape/write.go", "	if isRegular {\n		f, err = os.OpenFile(", "os.O_APPEND|os.O_WRONLY|os.O_CREATE", "os.O_WRONLY|os.O_CREATE"}}},
+	{"C05-dirty-not-set", "C05", "C05.trailer", []edit{{"pkg/operations/delete.go", "		if err := tw.WriteHeader(hdr); err != nil {\n", "		dirty = true\n", ""}}},
+	{"C05-lookup-after-write", "C05", "C05.lookups-before-append", []edit{{"pkg/operations/move.go", "", "		dirty = true\n	}\n", "		dirty = true\n\n		if _, err := o.metadata.Metadata.GetHeader(context.Background(), hdr.Name); err == nil {\n			return config.ErrNotImplemented\n		}\n	}\n"}}},
+	// C07
+	{"C07-unguarded-insert", "C07", "C07.guarded-insert", []edit{{"pkg/persisters/metadata.go", "func (p *MetadataPersister) UpsertHeader(", "		if err == sql.ErrNoRows {\n", "		if err != nil {\n"}}},
+	// C08
+	{"C08-invalid-signature-tolerated", "C08", "C08.", []edit{{"pkg/signature/verify.go", "func VerifyHeader(", "recipient, signature); err != nil {\n", "recipient, signature); err != nil && err != config.ErrSignatureInvalid {\n"}}},
+	{"C08-query-skips-verification", "C08", "C08.verify-before-use", []edit{{"pkg/recovery/query.go", "", "			if err := signature.VerifyHeader(hdr, reader.DriveIsRegular, pipes.Signature, crypto.Recipient); err != nil {\n				return []*tar.Header{}, err\n			}\n\n", ""}}},
+	{"C08-minisign-verify-result-ignored", "C08", "C08.fail-closed", []edit{{"pkg/signature/verify.go", "func VerifyString(", "		if minisign.Verify(recipient, []byte(src), decodedSignature) {\n			return nil\n		}\n\n		return config.ErrSignatureInvalid\n", "		_ = minisign.Verify(recipient, []byte(src), decodedSignature)\n\n		return nil\n"}}},
+	// C09
+	{"C09-move-header-not-encrypted", "C09", "C09.header-wrapped", []edit{{"pkg/operations/move.go", "", "encryption.EncryptHeader(hdr, o.pipes.Encryption, o.crypto.Recipient)", "encryption.EncryptHeader(hdr, config.NoneKey, o.crypto.Recipient)"}}},
+	{"C09-wrapper-leaks-name", "C09", "C09.wrapper-shape", []edit{{"pkg/encryption/encrypt.go", "func EncryptHeader(", "		Size:       hdr.Size,\n", "		Size:       hdr.Size,\n		Name:       hdr.Name,\n"}}},
+	{"C09-content-bypasses-encryptor", "C09", "C09.content-wrapped", []edit{{"pkg/operations/update.go", "			// Compress and write the file\n", "				if _, err := io.Copy(compressor, f); err != nil {\n", "				if _, err := io.Copy(tw, f); err != nil {\n"}}},
+	// C10
+	{"C10-writer-leak-on-error", "C10", "C10.drive-bracket", []edit{
+		{"pkg/operations/delete.go", "", "\n	// Free the drive if we return before the writer has been closed\n	writerOpen := true\n	defer func() {\n		if writerOpen {\n			_ = o.backend.CloseWriter()\n		}\n	}()\n", "\n"},
+		{"pkg/operations/delete.go", "", "	writerOpen = false\n", ""}}},
+	{"C10-manager-keeps-mutex-on-error", "C10", "C10.manager-typestate", []edit{{"pkg/tape/manager.go", "func (m *TapeManager) GetWriter()", "		m.physicalLock.Unlock()\n\n", ""}}},
+	{"C10-unpaired-lock", "C10", "C10.lock-pairs", []edit{{"pkg/fs/filesystem.go", "func (f *STFS) Remove(", "	defer f.ioLock.Unlock()\n", ""}}},
+	{"C10-must-compile", "C10", "C10.no-crash-site", []edit{{"pkg/inventory/find.go", "", "	exp, err := regexp.Compile(expression)\n	if err != nil {\n		return []*tar.Header{}, err\n	}\n", "	exp := regexp.MustCompile(expression)\n"}}},
+	{"C10-goroutine-drops-error", "C10", "C10.no-crash-site", []edit{{"pkg/fs/file.go", "func (f *File) Read(p []byte)", "				_ = writer.CloseWithError(err)\n", "				return\n"}}},
+	// C11
+	{"C11-unlocked-stat", "C11", "C11.lockset", []edit{{"pkg/fs/file.go", "func (f *File) Stat()", "	f.ioLock.Lock()\n	defer f.ioLock.Unlock()\n\n", ""}}},
+	{"C11-new-lock-order-cycle", "C11", "C11.lock-order", []edit{{"pkg/tape/manager.go", "func (m *TapeManager) Close()", "	defer m.physicalLock.Unlock()\n", "	defer m.physicalLock.Unlock()\n\n	m.readerLock.Lock()\n	defer m.readerLock.Unlock()\n"}}},
+	// C12
+	{"C12-like-filter-removed", "C12", "C12.like-safety", []edit{{"pkg/persisters/metadata.go", "func (p *MetadataPersister) GetHeaderChildren(", "		if !strings.HasPrefix(hdr.Name, childPrefix) {\n			continue\n		}\n\n", ""}}},
+	{"C12-ancestry-guard-removed", "C12", "C12.ancestry-guard", []edit{{"pkg/fs/filesystem.go", "", "	if strings.HasPrefix(newname, strings.TrimSuffix(oldname, string(filepath.Separator))+string(filepath.Separator)) {\n		return os.ErrInvalid\n	}\n", "	_ = strings.TrimSuffix\n"}}},
+	{"C12-descendants-not-moved", "C12", "C12.subtree-coverage", []edit{{"pkg/operations/move.go", "", "		headersToMove = append(headersToMove, dbhdrs...)\n", "		_ = dbhdrs\n"}}},
+	// C13
+	{"C13-parent-kind-unchecked", "C13", "C13.parent-is-directory", []edit{{"pkg/fs/filesystem.go", "func (f *STFS) Mkdir(", "	} else if parent.Typeflag != tar.TypeDir {\n", "	} else if parent == nil {\n"}}},
+	{"C13-tombstones-in-link-lookup", "C13", "C13.live-filter", []edit{{"pkg/persisters/metadata.go", "func (p *MetadataPersister) GetHeaderByLinkname(", "		qm.Where(models.HeaderColumns.Deleted+\" != 1\"),\n", ""}}},
+	{"C13-self-in-listing", "C13", "C13.no-self-in-listing", []edit{{"pkg/persisters/metadata.go", "func (p *MetadataPersister) GetHeaderChildren(", "		if name != prefix && name != prefix+\"/\" {\n", "		if name != prefix {\n"}}},
+	{"C13-mkdirall-splitlist", "C13", "C13.all-ancestors", []edit{{"pkg/fs/filesystem.go", "", "	parts := strings.Split(path, string(filepath.Separator))\n", "	parts := filepath.SplitList(path)\n"}}},
+	// C14
+	{"C14-seek-end-sign", "C14", "C14.whence-algebra", []edit{{"pkg/fs/file.go", "", "		dst = f.info.Size() + offset\n", "		dst = f.info.Size() - offset\n"}}},
+	{"C14-write-without-flag", "C14", "C14.access-gating", []edit{{"pkg/fs/file.go", "func (f *File) Write(p []byte)", "	if !f.flags.Write {\n		return -1, os.ErrPermission\n	}\n\n", ""}}},
+	{"C14-flush-skips-empty", "C14", "C14.flush-on-close", []edit{{"pkg/fs/file.go", "func (f *File) syncWithoutLocking()", "			true,\n			true,\n		); err != nil {\n", "			true,\n			false,\n		); err != nil {\n"}}},
+	{"C14-seek-returns-count", "C14", "C14.seek-returns-position", []edit{{"pkg/fs/file.go", "", "	_, err := io.CopyN(io.Discard, f.readOpReader, dst-int64(f.readOpReader.BytesRead))\n", "	n, err := io.CopyN(io.Discard, f.readOpReader, dst-int64(f.readOpReader.BytesRead))\n"}, {"pkg/fs/file.go", "", "	return dst, nil\n}\n\n// Inventory", "	return n, nil\n}\n\n// Inventory"}}},
+	// C15
+	{"C15-removeall-unguarded", "C15", "C15.guarded-reach", []edit{{"pkg/fs/filesystem.go", "func (f *STFS) RemoveAll(", "	if f.readOnly {\n		return os.ErrPermission\n	}\n\n", ""}}},
+	{"C15-readonly-grants-write", "C15", "C15.flag-integrity", []edit{{"pkg/fs/filesystem.go", "func (f *STFS) OpenFile(", "			flags.Read = true\n", "			flags.Read = true\n			flags.Write = (flag & O_ACCMODE) == os.O_RDWR\n"}}},
+	{"C15-wrong-error-class", "C15", "C15.permission-error", []edit{{"pkg/fs/filesystem.go", "func (f *STFS) Chown(", "		return os.ErrPermission\n", "		return os.ErrInvalid\n"}}},
+	// C16
+	{"C16-rebuild-when-root-differs", "C16", "C16.no-append-when-root-exists", []edit{{"pkg/fs/filesystem.go", "func (f *STFS) Initialize(", "	if err == config.ErrNoRootDirectory {\n", "	if err == config.ErrNoRootDirectory || existingRoot != rootProposal {\n"}}},
+	{"C16-serve-overwrites", "C16", "C16.no-truncate-on-open", []edit{{"cmd/stfs/cmd/serve_http.go", "tape.NewTapeManager(", "			false,\n", "			true,\n"}}},
+	// C17
+	{"C17-unsanitised-linkname", "C17", "C17.sanitise-before-query", []edit{{"pkg/persisters/metadata.go", "func (p *MetadataPersister) GetHeaderByLinkname(", "	linkname = p.getSanitizedPath(ctx, linkname)\n\n", ""}}},
+	{"C17-new-root-spelling", "C17", "C17.root-shape-agreement", []edit{{"internal/pathext/path.go", "", "path == \"./\"", "path == \"./\" || path == \"..\""}}},
+	// C18
+	{"C18-pointer-vs-value-key", "C18", "C18.role-tables", []edit{{"pkg/keys/recipient.go", "func ParseSignerRecipient(", "		return recipient, nil\n", "		return &recipient, nil\n"}}},
+	{"C18-password-ignored", "C18", "C18.password-flow", []edit{{"pkg/keys/identity.go", "func ParseSignerIdentity(", "minisign.DecryptKey(password, privkey)", "minisign.DecryptKey(\"\", privkey)"}}},
+}
+
+func copyTree(src, dst string) error {
+	return filepath.WalkDir(src, func(p string, d fs.DirEntry, err error) error {
+		if err != nil {
+			return err
+		}
+		rel, _ := filepath.Rel(src, p)
+		if d.IsDir() {
+			if d.Name() == ".git" {
+				return filepath.SkipDir
+			}
+			return os.MkdirAll(filepath.Join(dst, rel), 0o755)
+		}
+		if !d.Type().IsRegular() {
+			return nil
+		}
+		in, err := os.Open(p)
+		if err != nil {
+			return err
+		}
+		defer in.Close()
+		out, err := os.Create(filepath.Join(dst, rel))
+		if err != nil {
+			return err
+		}
+		defer out.Close()
+		_, err = io.Copy(out, in)
+		return err
+	})
+}
+
+func applyEdit(root string, e edit) (bool, error) {
+	path := filepath.Join(root, e.File)
+	b, err := os.ReadFile(path)
+	if err != nil {
+		return false, nil // anchor file gone: skipped
+	}
+	s := string(b)
+	start := 0
+	if e.After != "" {
+		i := strings.Index(s, e.After)
+		if i < 0 {
+			return false, nil
+		}
+		start = i
+	}
+	j := strings.Index(s[start:], e.Old)
+	if j < 0 {
+		return false, nil
+	}
+	j += start
+	s = s[:j] + e.New + s[j+len(e.Old):]
+	return true, os.WriteFile(path, []byte(s), 0o644)
+}
+
+func runVariant(v variant, repo, verif string) selftestResult {
+	res := selftestResult{Name: v.Name, Rule: v.Rule}
+	tmp, err := os.MkdirTemp("", "stfs-verif-")
+	if err != nil {
+		res.Status, res.Detail = "broken", err.Error()
+		return res
+	}
+	defer os.RemoveAll(tmp)
+	scratch := filepath.Join(tmp, "repo")
+	tverif := filepath.Join(tmp, "verif")
+	os.MkdirAll(filepath.Join(tverif, "evidence"), 0o755)
+	if b, err := os.ReadFile(filepath.Join(verif, "known_findings.json")); err == nil {
+		os.WriteFile(filepath.Join(tverif, "known_findings.json"), b, 0o644)
+	}
+	if err := copyTree(repo, scratch); err != nil {
+		res.Status, res.Detail = "broken", err.Error()
+		return res
+	}
+	for _, e := range v.Edits {
+		ok, err := applyEdit(scratch, e)
+		if err != nil {
+			res.Status, res.Detail = "broken", err.Error()
+			return res
+		}
+		if !ok {
+			res.Status, res.Detail = "skipped", "anchor text of this variant no longer exists in "+e.File
+			return res
+		}
+	}
+	exe, _ := os.Executable()
+	cmd := exec.Command(exe, "-p", v.Prop, "-tier", "quick", "-repo", scratch, "-verif", tverif)
+	out, _ := cmd.CombinedOutput()
+	text := string(out)
+	if strings.Contains(text, "BROKEN: type/load errors") || strings.Contains(text, "BROKEN: analyzer panic") {
+		res.Status = "skipped"
+		if strings.Contains(text, "analyzer panic") {
+			res.Status = "broken"
+		}
+		res.Detail = "variant does not load: " + firstLine(text, "BROKEN")
+		return res
+	}
+	for _, line := range strings.Split(text, "\n") {
+		t := strings.TrimSpace(line)
+		if strings.HasPrefix(t, "VIOLATED ") || strings.HasPrefix(t, "UNDECIDED ") {
+			key := strings.Fields(t)[1]
+			if strings.HasPrefix(key, v.Rule) {
+				res.Status, res.Detail = "caught", truncate(t, 200)
+				return res
+			}
+		}
+	}
+	res.Status, res.Detail = "missed", "no obligation of rule "+v.Rule+" was reported; checker said: "+firstLine(text, "result ")
+	return res
+}
+
+func firstLine(text, prefix string) string {
+	for _, l := range strings.Split(text, "\n") {
+		if strings.HasPrefix(l, prefix) {
+			return truncate(l, 300)
+		}
+	}
+	return ""
+}
+
+func selftestSummary(p *Property, repo, verif string) []selftestResult {
+	var out []selftestResult
+	for _, v := range corpus {
+		if v.Prop != p.ID {
+			continue
+		}
+		r := runVariant(v, repo, verif)
+		fmt.Printf("sensitivity %-40s %-8s %s\n", v.Name, r.Status, r.Detail)
+		out = append(out, r)
+	}
+	return out
+}
+
+func runSelftest(p *Property, repo, verif string) int {
+	rc := 0
+	for _, r := range selftestSummary(p, repo, verif) {
+		if r.Status == "missed" || r.Status == "broken" {
+			rc = 2
+		}
+	}
+	return rc
+}
